@@ -17,9 +17,10 @@ COMMUTATIVE = {"BitXor", "BitAnd", "BitOr", "Add", "Mul", "Eq", "Ne"}
 
 
 class ExprBuilder:
-    def __init__(self, body, max_depth=60):
+    def __init__(self, body, max_depth=60, inline_getters=False):
         self.b = body
         self.max_depth = max_depth
+        self.inline_getters = inline_getters      # `x.get_height()` reads as `x.size.height` (descriptions used in keys)
         self.defs = body.defs
         self._cache = {}
         # single-definition locals (arguments have an implicit definition at entry)
@@ -62,6 +63,10 @@ class ExprBuilder:
         args = [self.operand(a, depth + 1) for a in t["args"]]
         if path in LEN_FNS and len(args) == 1:
             return ("len", args[0])
+        if self.inline_getters and len(args) == 1:
+            g = trivial_getter(self.b.f, path)
+            if g is not None:
+                return subst(g, {1: args[0]})
         return ("call", path, args)
 
     def place(self, p, depth=0):
@@ -293,3 +298,27 @@ def see_through_try(f, e, depth=0):
     if isinstance(e, tuple):
         return tuple(see_through_try(f, x, depth + 1) if isinstance(x, (tuple, list)) else x for x in e)
     return [see_through_try(f, x, depth + 1) if isinstance(x, (tuple, list)) else x for x in e]
+
+
+_TRIVIAL = {}
+
+
+def trivial_getter(f, path):
+    """the field chain `(*self).a.b` a crate-local one-argument function returns and does nothing else, or None"""
+    if path in _TRIVIAL:
+        return _TRIVIAL[path]
+    r = None
+    b = f.bodies.get(path)
+    if b is not None and b.kind in ("fn", "method") and b.argc == 1 and b.nblocks <= 2 and not b.back_edges and not any(True for _ in b.calls()):
+        eb = ExprBuilder(b)
+        rets = [eb.rvalue(b.blocks[bi]["stmts"][k]["rv"]) for bi, k in b.defs.get(0, []) if k != "term"]
+        if len(rets) == 1:
+            e = rets[0]
+            x, nf = e, 0
+            while x[0] in ("field", "deref", "ref"):
+                nf += x[0] == "field"
+                x = x[1]
+            if x[0] == "var" and x[1] == 1 and nf >= 1:
+                r = e
+    _TRIVIAL[path] = r
+    return r
